@@ -227,7 +227,11 @@ func TestInfluxMalformedLines(t *testing.T) {
 			if damagedAt[i] {
 				sl.wire, sl.damage = damage(t, l)
 				classes["damage="+sl.damage] = true
-				key += "|D:" + sl.damage + ":" + strings.TrimSuffix(sl.wire, strconv.FormatInt(tsInUnit(l.TS, l.Unit), 10)) + l.tsKey
+				// (clock independent: the timestamp has a constant number of digits)
+				key += fmt.Sprintf("|D:%s:%s:%s:%d", sl.damage, l.body(), l.tsKey, len(sl.wire)-len(l.wire()))
+				if sl.damage == "arbitrary-bytes" || sl.damage == "timestamp-is-text" || sl.damage == "field-value-not-a-number" {
+					key += ":" + strings.TrimSuffix(sl.wire, strconv.FormatInt(tsInUnit(l.TS, l.Unit), 10))
+				}
 			} else {
 				sl.want, sl.why = expect(l.meaning(false), rc, fInflux)
 				key += "|W:" + l.body() + l.tsKey
